@@ -116,10 +116,15 @@ MANIFEST_TEXT = {
             "technique": "Lean 4 refinement proof (filesystem model -> path-set reference, all histories) + lock-step correspondence of the model with the real code + differential programs vs MemoryFS"},
     "C02": {"text": "Theorems: seek's cursor addresses exactly byte `offset` (end-of-cluster convention included); read (size clipping + chunk loop along the "
                     "chain) returns what a byte buffer returns and moves the position alike, for every cluster size/file size/position/length; clusters of "
-                    "different files are disjoint on the device. write/truncate and mode gating decided by differential execution against a byte-buffer reference.",
+                    "different files are disjoint on the device. Write path: c02_write_replaces_range / c02_write_refines (read-modify-write of the cursor's cluster + "
+                    "cluster-sized chunks replaces exactly bytes [pos,pos+n) of the concatenated clusters; content afterwards = byte-buffer write, whatever the "
+                    "newly linked clusters held), c02_truncate_*; at the filesystem level c02_fs_write_reads_back / c02_fs_write_frame (every reachable state "
+                    "of Model.Fs: the extended chain has room, the file reads back as the byte buffer, no other entry's content changes). The model's "
+                    "writeClusters is compared with the real clusters on the device before/after real writes. Mode gating, several handles and whole call "
+                    "sequences decided by differential execution against a byte-buffer reference.",
             "note": _NOTE + "Reference file object = harness RefFile (Python binary-file semantics; MemoryFS' own file object has three deviations, documented "
                     "in fsrun.py). Known finding: seek beyond EOF clamps to the size.",
-            "technique": "Lean 4 proof (read/seek refinement to a byte buffer) + differential call sequences"},
+            "technique": "Lean 4 proof (read, seek, write and truncate refine a byte buffer; frame at the filesystem level) + device-cluster correspondence + differential call sequences"},
     "C03": {"text": "Theorems: parse(serialise(FAT)) = FAT for FAT12 (every length)/16/32 incl. reserved bits; scan(serialise(directory)) = directory incl. long names, "
                     "whatever follows the end mark. Theorem c03_fs_synced: in the filesystem-level model Model.Fs (device = second copy changed only by flush_fat / "
                     "update_directory_entry) memory and device agree after every call of every history, however the call ended; the model's device state is "
